@@ -10,14 +10,15 @@ META = {
             'only required, non-excluded, size-admissible files; inventory = union of the Extract results with attribution. The model is tied to the Go engine by running '
             'both on generated scans (0 tolerated differences in error class, inode count, ordered Extract calls, sorted packages, statuses).',
     'note': 'Trusted: Lean kernel; the model/implementation tie is differential (generator reach is printed in the evidence); regexp, glob and go-git engines are parameters '
-            '(match sets / domain law). The third sentence (requesting a reached sub-directory = the whole-tree scan restricted to it) is theorems C01_subdir_spec / C01_subdir (one root, DistinctNames, no stat faults at the two start points); on the implementation side it follows from the stream oracle calls = mustExtract holding for both kinds of scan.',
+            '(match sets / domain law). The third sentence (requesting a reached sub-directory = the whole-tree scan restricted to it) is theorems C01_subdir_spec_partial / C01_subdir_partial (one root, DistinctNames, no stat faults at the two start points); on the implementation side it is judged by the paired-scan stream `subdir` (whole-tree scan and the same tree with PathsToExtract=[d]; where the driver reports the decidable hypotheses, subdirhyp=1, the calls of the second must be those of the first, restricted to paths under d). C01_only_required / C01_limit_shared are DEFINITIONAL unfoldings of the specification and are not in the audited list (their engine-level forms C01_only_required_run, C01_calls_are_files, C01_limit_shared_run/_step are). Theorem names: `_benign` = configuration class Benign; `_partial` = a hypothesis narrows the quantifier of the property (DistinctNames, one root, paths = []).',
 }
-THEOREMS = ['Scalibr.Walk.C01_calls', 'Scalibr.Walk.C01_once', 'Scalibr.Walk.C01_only_required', 'Scalibr.Walk.C01_limit_shared',
-            'Scalibr.Walk.C01_inv', 'Scalibr.Walk.C01_inv_spec', 'Scalibr.Walk.C01_subdir', 'Scalibr.Walk.C01_subdir_spec', 'Scalibr.Walk.C01_matcher_domainLaw', 'Scalibr.Walk.C01_table_matcher_domainLaw',
+THEOREMS = ['Scalibr.Walk.C01_calls_benign', 'Scalibr.Walk.C01_once_partial',
+            'Scalibr.Walk.C01_inv', 'Scalibr.Walk.C01_inv_spec_benign', 'Scalibr.Walk.C01_subdir_partial', 'Scalibr.Walk.C01_subdir_spec_partial', 'Scalibr.Walk.C01_matcher_domainLaw', 'Scalibr.Walk.C01_table_matcher_domainLaw',
             'Scalibr.Walk.run_spec', 'Scalibr.Walk.walkNode_spec', 'Scalibr.Walk.mustFlat_nodup', 'Scalibr.Walk.runRoots_pkgs',
-            'Scalibr.Walk.C01_once_run', 'Scalibr.Walk.C01_allFiles_exact', 'Scalibr.Walk.C01_allFiles_complete', 'Scalibr.Walk.C01_only_required_run',
+            'Scalibr.Walk.C01_once_run_partial', 'Scalibr.Walk.C01_allFiles_exact', 'Scalibr.Walk.C01_allFiles_complete', 'Scalibr.Walk.C01_only_required_run',
             'Scalibr.Walk.C01_calls_are_files', 'Scalibr.Walk.C01_limit_shared_run', 'Scalibr.Walk.C01_limit_shared_step',
-            'Scalibr.Walk.C01_requested_file_bypasses_skip_rules', 'Scalibr.Walk.C01_requested_file_bypasses_skip_rules_run']
+            'Scalibr.Walk.C01_requested_file_bypasses_skip_rules', 'Scalibr.Walk.C01_requested_file_bypasses_skip_rules_run_benign',
+            'Scalibr.Walk.C01_subdir_decidable_partial', 'Scalibr.Walk.C01_distinct_decidable', 'Scalibr.Walk.C01_parentGis_is_chain']
 
 
 def run(ctx):
@@ -29,5 +30,41 @@ def run(ctx):
     n = {'quick': 6000, 'thorough': 150000}[ctx.tier] * W.scale(ctx)
     W.run_stream(ctx, 'plain', n, W.oracle_calls)
     W.run_stream(ctx, 'mixed', n // 3, W.oracle_calls)
+    # ---- third sentence, judged on the IMPLEMENTATION: pairs (whole-tree scan; the same tree with PathsToExtract = [d]) sharing grp=.
+    # Where the driver says the hypotheses of C01_subdir_decidable_partial hold for d (subdirhyp=1: benign, one root, no cut-off, distinct
+    # sibling names, d a directory the whole-tree walk reaches, both start points stat-able), the Extract calls of the scan requesting d
+    # must be exactly the whole-tree scan's calls on paths under d, in order.
+    whole = {}
+    stats = {'pairs': 0, 'judged': 0, 'judged_nonempty': 0}
+
+    def under(d, p):
+        return d == '.' or p == d or p.startswith(d + '/')
+
+    def oracle_subdir(case, fi, fm):
+        v = W.oracle_calls(case, fi, fm)
+        if v:
+            return v
+        if fm.get('distinct') != '1':
+            return None
+        g = fi.get('grp')
+        if fi.get('role') == 'whole':
+            whole[g] = (fi.get('err'), W.fl(fi.get('calls')))
+            return None
+        if fi.get('role') == 'sub' and g in whole:
+            stats['pairs'] += 1
+            if fm.get('subdirhyp') != '1':
+                return None
+            err0, calls0 = whole[g]
+            d = fi.get('sd')
+            want = [c for c in calls0 if under(d, c.split('@')[1])]
+            stats['judged'] += 1
+            stats['judged_nonempty'] += 1 if want else 0
+            if err0 != 'none' or fi.get('err') != 'none':
+                return 'sub-directory pair: a benign scan failed (whole err=%s, requested err=%s)' % (err0, fi.get('err'))
+            if W.fl(fi.get('calls')) != want:
+                return 'requesting the reached directory %s made Extract calls %s, the whole-tree scan restricted to it made %s' % (d, W.fl(fi.get('calls'))[:6], want[:6])
+        return None
+    W.run_stream(ctx, 'subdir', max(300, n // 6), oracle_subdir)
+    ctx.extra['subdir_pairs'] = stats
     if not ok:
         lib.proof_failed(ctx, 'Scalibr.Properties.C01')
